@@ -27,11 +27,12 @@ RULE = ("run: real multi-threaded Bencher runs (threads T in {2,3,4,8}, sample_c
 ASSUMPTIONS = [
     "std::sync::Barrier behaves as documented (count + generation; the arrival completing the count releases all)",
     "the thread pool is a fork/join: par_extend returns after every thread's task ended, a panicking task leaves its slot None (properties C06/C07)",
-    "ThreadAllocInfo::current() returns Some on every benchmark thread (Linux thread_local, thread not terminating); "
-    "if it returned None on some thread only, that thread would skip the second wait (not modelled)",
+    "ThreadAllocInfo::current() returns Some on every benchmark thread (Linux thread_local, thread not terminating): hypothesis "
+    "fixed_code of the theorems; the other branch of sync_impl is in the model (has_info) and C08_mixed_info_deadlocks shows "
+    "that a None on one thread only would deadlock the round",
     "the number of rounds and the sample size of each round are inputs of the model (decided by the sampling loop, properties C03/C04/C19)",
     "the guard's waits while unwinding are not logged by the hooks: the replay inserts them as silent steps",
-    "log_sb (trace-level specification) is related to the proved state-level phase_sb only by a runtime cross-check in the driver",
+    "log_sb (the monitor evaluated on observed logs) is proved to accept every model execution for a fixed sample size per run (C08_log_sb_model)",
 ]
 TRUSTED = [
     "real-thread schedules are sampled (jitter), not enumerated; all interleavings are covered by the Coq theorems over the model",
